@@ -46,8 +46,8 @@ def realize(repo: Repo, chk: Check) -> None:
     op = op_param(f)
     chk.rule(
         "C12.copy-in",
-        "copy-in = CopyOp(chain source, cast dest) inserted before the first (forward walk) use of the cast value that reads "
-        "it; for kernel ops `reads` means membership in use_op.inputs; then the search stops",
+        "copy-in = CopyOp(chain source, cast dest), inserted once some (forward walk) use of the cast value reads it, in front of the FIRST "
+        "use of the value (reader or writer); for kernel ops `reads` means membership in use_op.inputs; then the search stops",
         floor=4,
     )
     chk.rule(
@@ -83,9 +83,37 @@ def realize(repo: Repo, chk: Check) -> None:
         ins = [x for x in fl.calls("insert_op") if x.reachable and any(l is loop for l in x.loops)]
         want = "InsertPoint.before" if which == "copy-in" else "InsertPoint.after"
         tv = loop.target.id if isinstance(loop.target, ast.Name) else "use_op"
-        ok_ip = any(len(x.node.args) > 1 and ast.unparse(x.node.args[1]) == f"{want}({tv})" for x in ins)
-        chk.result(ok_ip, rule, key + ":position", s.where(), f"the copy is inserted with {want}(use)",
-                   f"the {which} is not inserted with {want}(use_op): data arrives after its reader / leaves before its writer")
+        if which == "copy-out":
+            ok_ip = any(len(x.node.args) > 1 and ast.unparse(x.node.args[1]) == f"{want}({tv})" for x in ins)
+            chk.result(ok_ip, rule, key + ":position", s.where(), f"the copy is inserted with {want}(use)",
+                       f"the {which} is not inserted with {want}(use_op): data arrives after its reader / leaves before its writer")
+        else:
+            # the buffer is filled in front of its FIRST use (reader or writer) once some use reads it: a copy placed in front of the
+            # first reader would overwrite the result of an earlier writer (the copy back only follows the last writer)
+            ok_ip = False
+            detail = "no InsertPoint.before(...) for the copy-in"
+            for x in ins:
+                if len(x.node.args) < 2:
+                    continue
+                m = norm.match(T("InsertPoint.before($t)"), x.node.args[1])
+                if m is None:
+                    continue
+                if isinstance(m["t"], ast.Name) and m["t"].id == tv:
+                    detail = (f"the copy-in is inserted in front of the first READER `{tv}`: if an earlier op writes the buffer (write, read, write through one cast) "
+                              "its result is overwritten by the stale original")
+                    continue
+                if isinstance(m["t"], ast.Name):
+                    fv = m["t"].id
+                    # first-use variable: assigned at the top level of the loop body, after the filter on `uses`, as `fv = fv or use`
+                    for i_st, st in enumerate(body):
+                        if isinstance(st, ast.Assign) and any(isinstance(t, ast.Name) and t.id == fv for t in st.targets) and norm.any_match(
+                                [f"{fv} or {tv}", f"{tv} if {fv} is None else {fv}", f"{fv} if {fv} is not None else {tv}"], st.value) is not None:
+                            filt = [b for b in body[:i_st] if isinstance(b, ast.If) and b.body and isinstance(b.body[-1], ast.Continue)]
+                            if filt:
+                                ok_ip = True
+                    if not ok_ip:
+                        detail = f"`{fv}` is not recognisably the first use of the buffer in walk order"
+            chk.result(ok_ip, rule, key + ":position", s.where(), "the copy-in is inserted in front of the first use of the buffer (reader or writer)", detail)
         flag_if = next((st for st in body if isinstance(st, ast.If) and any(x is s.node for x in ast.walk(st))), None)
         has_break = flag_if is not None and isinstance(flag_if.body[-1], ast.Break)
         chk.result(has_break, rule, key + ":only-once", s.where(), "exactly one copy is inserted (break after the first match)",
